@@ -859,7 +859,7 @@ func importRulesFrom(c *Ctx, r *Report, from string, run func(*Ctx, *Report), ru
 				continue
 			}
 		}
-		r.Obls = append(r.Obls, Obligation{Rule: rule, Key: o.Rule + " " + o.Key, Pos: o.Pos, Status: o.Status, Detail: o.Detail, Path: o.Path})
+		r.Obls = append(r.Obls, Obligation{Rule: rule, Key: o.Rule + " " + o.Key, Pos: o.Pos, Status: o.Status, Detail: o.Detail, Path: o.Path, NegOnly: o.NegOnly})
 		r.seenKeys[rule+"|"+o.Rule+" "+o.Key] = true
 	}
 	for f := range sub.FuncsSeen {
